@@ -28,6 +28,17 @@ func inKustomize(f *ssa.Function) bool {
 	return f.Pkg != nil && strings.HasPrefix(f.Pkg.Pkg.Path(), kpfx)
 }
 
+// gkey names a package-level variable: kustomize's own by their path below the module prefix, any OTHER package's
+// (a third-party or standard-library global written from kustomize code is process-wide state just the same) by
+// "ext:" + full path.
+func gkey(g *ssa.Global, kpfx string) string {
+	p := g.Pkg.Pkg.Path()
+	if strings.HasPrefix(p, kpfx) {
+		return p[len(kpfx):] + "." + g.Name()
+	}
+	return "ext:" + p + "." + g.Name()
+}
+
 // rootGlobal follows FieldAddr/IndexAddr/UnOp(load)/Lookup chains back to a package-level variable.
 func rootGlobal(v ssa.Value, depth int) *ssa.Global {
 	if depth > 8 {
@@ -159,17 +170,17 @@ func factsImpl(repo, out, js string) {
 						nAssert++
 					}
 				case *ssa.Store:
-					if g := rootGlobal(x.Addr, 0); g != nil && strings.HasPrefix(g.Pkg.Pkg.Path(), kpfx) {
-						acc[g.Pkg.Pkg.Path()[len(kpfx):]+"."+g.Name()] = "w"
+					if g := rootGlobal(x.Addr, 0); g != nil {
+						acc[gkey(g, kpfx)] = "w"
 					}
 				case *ssa.MapUpdate:
-					if g := rootGlobal(x.Map, 0); g != nil && strings.HasPrefix(g.Pkg.Pkg.Path(), kpfx) {
-						acc[g.Pkg.Pkg.Path()[len(kpfx):]+"."+g.Name()] = "w"
+					if g := rootGlobal(x.Map, 0); g != nil {
+						acc[gkey(g, kpfx)] = "w"
 					}
 				case *ssa.UnOp:
 					if x.Op == token.MUL {
-						if g := rootGlobal(x.X, 0); g != nil && strings.HasPrefix(g.Pkg.Pkg.Path(), kpfx) {
-							k := g.Pkg.Pkg.Path()[len(kpfx):] + "." + g.Name()
+						if g := rootGlobal(x.X, 0); g != nil {
+							k := gkey(g, kpfx)
 							if acc[k] == "" {
 								acc[k] = "r"
 							}
@@ -272,10 +283,10 @@ func factsImpl(repo, out, js string) {
 						g = rootGlobal(x.X, 0)
 					}
 				}
-				if g == nil || !strings.HasPrefix(g.Pkg.Pkg.Path(), kpfx) {
+				if g == nil {
 					continue
 				}
-				k := g.Pkg.Pkg.Path()[len(kpfx):] + "." + g.Name()
+				k := gkey(g, kpfx)
 				if writers[k] == nil {
 					continue
 				}
